@@ -469,3 +469,48 @@ def bool_default_spellings(ctx):
             rows.append({"ok": got.strip() == want, "case": case, "line": fd.node.lineno,
                          "message": f"{case} emits {got!r}; the definition's default is {want}"})
     return rows
+
+
+def naming_rows(ctx):
+    """G11: the generator's naming functions evaluated on the shipped vocabulary.  Every shipped field name s is the
+    snake-case of its capitalised-word form (to_snake_case(Camel(s)) == s, builtin names suffixed with '_'), and the
+    package of every version module is basic_name(<top-level class name>)."""
+    I = ctx.interp
+    S = ctx.schema
+    snake = _mod(ctx, "codegen.case").env.vars.get("to_snake_case")
+    basic = _mod(ctx, "codegen.generate_schema").env.vars.get("basic_name")
+    if not isinstance(snake, FuncV) or not isinstance(basic, FuncV):
+        raise AnalysisError("anchor vanished: codegen.case.to_snake_case / codegen.generate_schema.basic_name")
+
+    def call(f, arg):
+        try:
+            r = I.call(f, [arg], {}, Run(), None)
+        except Raised as r_:
+            return ("raise", short_exc(r_.cls))
+        except Limit as e:
+            raise AnalysisError(f"{f.ref} not understood: {e}")
+        if not isinstance(r, str):
+            raise AnalysisError(f"{f.ref}({arg!r}) is not evaluated to a constant string: {r!r}")
+        return r
+
+    rows = []
+    seen = {}
+    for c in S.classes.values():
+        for fl in c["fields"]:
+            seen.setdefault(fl["name"], f"{c['key']}.{fl['name']}")
+    for s, where in sorted(seen.items()):
+        camel = "".join(p.capitalize() for p in s.rstrip("_").split("_"))
+        got = call(snake, camel)
+        rows.append({"ok": got == s, "construct": "codegen.case:to_snake_case", "stmt": f"to_snake_case({camel!r})",
+                     "message": f"to_snake_case({camel!r}) gives {got!r}; the shipped field (e.g. {where}) is named {s!r}",
+                     "file": "codegen/case.py", "line": snake.node.lineno})
+    tops = {}
+    for mname, m in S.modules.items():
+        for c in S.top_level(m):
+            tops.setdefault((c["name"], m["api"]), mname)
+    for (cname, api), mname in sorted(tops.items()):
+        got = call(basic, cname)
+        rows.append({"ok": got == api, "construct": "codegen.generate_schema:basic_name", "stmt": f"basic_name({cname!r})",
+                     "message": f"basic_name({cname!r}) gives {got!r}; the shipped module {mname} lives in package {api!r}",
+                     "file": "codegen/generate_schema.py", "line": basic.node.lineno})
+    return rows
